@@ -11,6 +11,11 @@ import sys
 
 import numpy as np
 
+try:
+    import torch
+except ImportError:  # contracts are only installed where torch is present
+    torch = None
+
 RECORD = {"evaluations": {}, "violations": []}
 
 
@@ -77,7 +82,8 @@ def local_peaks_are_strict_maxima(cms, threshold, result):
             return True
         pts, vals, si, ci = result
         got = {(int(s), int(c), int(p[1]), int(p[0])) for p, s, c in zip(pts.tolist(), si.tolist(), ci.tolist())}
-        return _rec("C06", "find_local_peaks_rough", got == brute_local_peaks(a, threshold), "peak set differs from the brute-force neighbour scan")
+        thr = float(np.float32(threshold)) if cms.dtype == torch.float32 else float(threshold)  # compared in the map's own precision
+        return _rec("C06", "find_local_peaks_rough", got == brute_local_peaks(a, thr), "peak set differs from the brute-force neighbour scan")
     except Exception as e:
         return _rec("C06", "find_local_peaks_rough", True, str(e))
 
